@@ -552,6 +552,9 @@ def run_ippo(zoo, groups, *, training, mask_form="list", variant=""):
         if any_ed:
             info["env_defined_actions"] = np.array([float(r["envdef"][0]) if r["envdef"] else np.nan for r in g["rows"]])
         infos[aid] = info
+    if variant.endswith("+infos-reversed"):
+        # the info dictionary in another key order than agent_ids (it is keyed by agent: the order carries no meaning)
+        infos = {k: infos[k] for k in reversed(list(infos))}
     evs = []
     try:
         torch.manual_seed(zoo.seed + B)
@@ -629,5 +632,6 @@ def rerun(cfg, seed=0):
         return run_ma_disc(zoo, alg, groups, training=training, single=single, variant=variant,
                            with_mask=cfg.get("masked", True))
     if alg == "IPPO":
-        return run_ippo(zoo, groups, training=training, mask_form=variant.split("-")[1] if variant.startswith("mask-") else "list")
+        return run_ippo(zoo, groups, training=training, mask_form=variant.split("+")[0].split("-")[1] if variant.startswith("mask-") else "list",
+                        variant=variant if variant.endswith("+infos-reversed") else "")
     raise ValueError(f"cannot replay {alg}")
